@@ -92,21 +92,42 @@ def _on_alarm(*_a):
     raise CaseTimeout()
 
 
-def guarded(oracle: OracleFn, u, tc, aval, route, tally, seconds: float = 5.0) -> List[Fail]:
-    """Run the oracle under a wall-clock guard and an address-space limit."""
+def run_guarded(fn, seconds: float = 5.0):
+    """Call fn() under a wall-clock guard.  Returns (status, result) with status in
+    ok | raise | hang | memory.  Safe against the alarm firing late (a long C call
+    is only interrupted when it returns): the timer is disarmed inside the guarded
+    region, so a pending alarm can only surface there."""
     import signal
 
     old = signal.signal(signal.SIGALRM, _on_alarm)
-    signal.setitimer(signal.ITIMER_REAL, seconds)
     try:
-        return oracle(u, tc, aval, route, tally)
-    except CaseTimeout:
-        return [("hang", f"no result within {seconds}s")]
-    except MemoryError:
-        return [("memory", "MemoryError (address-space guard)")]
+        try:
+            try:
+                signal.setitimer(signal.ITIMER_REAL, seconds)
+                res = fn()
+            finally:
+                signal.setitimer(signal.ITIMER_REAL, 0)
+            return ("ok", res)
+        except CaseTimeout:
+            return ("hang", None)
+        except MemoryError:
+            return ("memory", None)
+        except Exception as e:
+            return ("raise", e)
     finally:
-        signal.setitimer(signal.ITIMER_REAL, 0)
         signal.signal(signal.SIGALRM, old)
+
+
+def guarded(oracle: OracleFn, u, tc, aval, route, tally, seconds: float = 5.0) -> List[Fail]:
+    """Run the oracle under a wall-clock guard and an address-space limit."""
+    status, res = run_guarded(lambda: oracle(u, tc, aval, route, tally), seconds)
+    if status == "ok":
+        return res
+    if status == "hang":
+        return [("hang", f"no result within {seconds}s")]
+    if status == "memory":
+        return [("memory", "MemoryError (address-space guard)")]
+    raise res
 
 
 def limit_memory(gb: float = 6.0) -> None:
